@@ -371,10 +371,11 @@ def handleC09 (op : String) (j : Json) : Option Json :=
     match (getArr j "ops").mapM rOpOfJson with
     | none => some (errJ "bad-op")
     | some ops =>
-      match reverseInto ops with
-      | none => some (obj [("err", Json.str "ValueError")])
+      match populate ops with
+      | none => some (obj [("err", Json.str "ValueError"), ("reversible", Json.bool (reversibleL ops))])
       | some ds =>
         some (obj [("down", Json.arr (ds.map (fun d => rOpJ (view d))).toArray),
+                   ("reversible", Json.bool (reversibleL ops)),
                    ("kinds", strs ((kindsL ds).map kindToStr)),
                    ("expected", strs ((expectedDown (tagsL ops)).map kindToStr))])
   | "rev.viewEq" =>
